@@ -735,7 +735,16 @@ impl Harness for H {
                 // and do not stop the sweep.
                 // ... i.e. of an, at, av AND g: anything less still carries a field
                 // that genuine pre-auth metadata never had and must be rejected.
-                let full_strip = matches!(t, Tamper::Rewrite { remove, .. } if ["an", "at", "av", "g"].iter().all(|f| remove.iter().any(|r| r == f)));
+                // The window is recognised by its effect, not by the tamper that
+                // produced it: some metadata document on the tampered disk differs
+                // from the original and decodes as a CBOR map carrying none of the
+                // four fields (a field-stripping rewrite, or a bit flip in a key
+                // header that shifts the rest of the map into unknown keys).
+                let full_strip = SimStore::dump(&d).iter().any(|(p, b)| {
+                    p.starts_with("meta/")
+                        && base.get(p).map(|o| o != b).unwrap_or(true)
+                        && cbor_map(b).map(|m| ["an", "at", "av", "g"].iter().all(|f| field(&m, f).is_none())).unwrap_or(false)
+                });
                 let window = !strict && full_strip;
                 let mut outcome = String::new();
                 let r = (|| -> Result<(), Violation> {
